@@ -256,6 +256,10 @@ func (ex *Exec) applyContract(st *State, fr *Frame, x *ssa.Call, c *Contract, ke
 		vars[nm] = rv
 		if i < len(c.Results) {
 			vars[c.Results[i]] = rv
+		} else if n := results.At(i).Name(); n != "" && n != "_" {
+			if _, clash := vars[n]; !clash {
+				vars[n] = rv
+			}
 		}
 	}
 	if results.Len() == 1 {
@@ -495,9 +499,21 @@ func (ex *Exec) copyOp(st *State, fr *Frame, x *ssa.Call, args []Val) Val {
 	if dst.Region == nil || src.Region == nil {
 		return Scalar{ex.idxConst(0)}
 	}
-	// new contents of dst region: quantified description (memmove semantics: reads the old contents)
 	oldD := st.Mem[dst.Region]
 	oldS := st.Mem[src.Region]
+	if dst.Region.FixedLen >= 0 && dst.Region.FixedLen <= 64 {
+		// small fixed-size destination: one conditional store per position (quantifier-free, exact memmove)
+		cur := oldD
+		for p := int64(0); p < dst.Region.FixedLen; p++ {
+			pos := ex.idxConst(p)
+			inR := And(ex.le(dst.Off, pos), ex.lt(pos, ex.idxAdd(dst.Off, n)))
+			val := Ite(inR, Select(oldS, ex.idxAdd(src.Off, ex.idxSub(pos, dst.Off))), Select(oldD, pos))
+			cur = Store(cur, pos, val)
+		}
+		st.Mem[dst.Region] = ex.def("copymem", cur)
+		return Scalar{n}
+	}
+	// new contents of dst region: quantified description (memmove semantics: reads the old contents)
 	arr := ex.fresh("copymem", oldD.S)
 	i := Sym("qi", ex.idxSort())
 	inR := And(ex.le(dst.Off, i), ex.lt(i, ex.idxAdd(dst.Off, n)))
